@@ -9,9 +9,30 @@ import (
 )
 
 type (
-	Context    = context.Context
-	CancelFunc = context.CancelFunc
+	Context         = context.Context
+	CancelFunc      = context.CancelFunc
+	CancelCauseFunc = context.CancelCauseFunc
 )
+
+func Cause(c Context) error { return c.Err() }
+
+func WithCancelCause(p Context) (Context, CancelCauseFunc) {
+	c, cancel := vrt.WithCancel(p)
+	return c, func(error) { cancel() }
+}
+
+func WithoutCancel(p Context) Context { return vrt.Background() }
+
+func AfterFunc(ctx Context, f func()) (stop func() bool) {
+	stopped := false
+	vrt.Go(func() {
+		vrt.Recv(ctx.Done())
+		if !stopped {
+			f()
+		}
+	})
+	return func() bool { was := !stopped; stopped = true; return was }
+}
 
 var (
 	Canceled         = context.Canceled
